@@ -36,6 +36,28 @@ fn name() -> BoxedStrategy<String> {
     .boxed()
 }
 
+/// names whose versions come from the C01 token generator (letters allowed: the KF-1 leniency of
+/// C01 applies to the expected winner)
+fn generated_name() -> BoxedStrategy<String> {
+    prop_oneof![
+        10 => (0usize..BASES.len(), crate::props::vergen::tokens(5)).prop_map(|(b, v)| format!("{}-{}", BASES[b], crate::props::vergen::render(&v, 18).replace('-', ""))),
+        1 => (0usize..BASES.len()).prop_map(|b| BASES[b].to_string()),
+        1 => crate::props::vergen::tokens(3).prop_map(|v| crate::props::vergen::render(&v, 18).replace('-', "")),
+    ]
+    .boxed()
+}
+
+fn generated_list_strategy(tier: Tier) -> BoxedStrategy<ListCase> {
+    let max = tier.pick(5, 6);
+    (
+        prop::sample::select(vec!["*", "b-*", "{a,b}-*", "?*", "b>=0", "a-b-[0-9]*", "*-*"]),
+        prop::collection::vec(generated_name(), 2..=max),
+        prop::collection::vec((prop::collection::vec(any::<u16>(), 8), prop::collection::vec(any::<u16>(), 8)), 3),
+    )
+        .prop_map(|(p, names, orders)| ListCase { pattern: p.to_string(), names, orders })
+        .boxed()
+}
+
 fn list_strategy(tier: Tier) -> BoxedStrategy<ListCase> {
     let max = tier.pick(6, 7);
     (
@@ -70,7 +92,11 @@ fn version_of(n: &str) -> &str {
 /// the model's winner among matching candidates: highest version, ties to the byte-wise
 /// smaller name
 fn better<'a>(x: &'a str, y: &'a str) -> &'a str {
-    match dewey::cmp(version_of(x), version_of(y), Letters::Rank) {
+    better_with(x, y, Letters::Rank)
+}
+
+fn better_with<'a>(x: &'a str, y: &'a str, l: Letters) -> &'a str {
+    match dewey::cmp(version_of(x), version_of(y), l) {
         Ordering::Greater => x,
         Ordering::Less => y,
         Ordering::Equal => {
@@ -106,6 +132,13 @@ pub fn check(c: &ListCase, obs: &mut Obs) -> Result<(), String> {
     let matching: Vec<&str> = names.iter().copied().filter(|n| p.matches(n)).collect();
     // model winner
     let winner: Option<&str> = matching.iter().copied().reduce(|a, b| better(a, b));
+    // known finding KF-1: where the ASCII-code letter encoding picks another winner, that one is
+    // tolerated (and counted)
+    let winner_ascii: Option<&str> = matching.iter().copied().reduce(|a, b| better_with(a, b, Letters::AsciiLower));
+    if names.iter().any(|n| dewey::longest_digit_run(n) > 18) {
+        obs.excluded = true;
+        return Ok(());
+    }
     // pairwise laws
     for &x in &names {
         for &y in &names {
@@ -119,10 +152,15 @@ pub fn check(c: &ListCase, obs: &mut Obs) -> Result<(), String> {
                 (true, true) => Some(better(x, y)),
             };
             if got != want {
-                return Err(format!(
-                    "best_match({:?}; {:?}, {:?}) = {:?}, expected {:?} (matches: {} {})",
-                    c.pattern, x, y, got, want, mx, my
-                ));
+                let ascii = if mx && my { Some(better_with(x, y, Letters::AsciiLower)) } else { want };
+                if ascii != want && got == ascii {
+                    obs.known_hits.push(crate::props::c01::KF1);
+                } else {
+                    return Err(format!(
+                        "best_match({:?}; {:?}, {:?}) = {:?}, expected {:?} (matches: {} {})",
+                        c.pattern, x, y, got, want, mx, my
+                    ));
+                }
             }
             if let Some(g) = got {
                 if !p.matches(g) {
@@ -149,6 +187,10 @@ pub fn check(c: &ListCase, obs: &mut Obs) -> Result<(), String> {
         for sh in [shape.as_slice(), &[0u16][..], &[u16::MAX][..]] {
             let got = reduce(&p, &items, sh, 0);
             obs.verdicts += 1;
+            if got != winner && winner_ascii != winner && got == winner_ascii {
+                obs.known_hits.push(crate::props::c01::KF1);
+                continue;
+            }
             if got != winner {
                 return Err(format!(
                     "reducing {:?} with pattern {:?} gives {:?}, the best matching candidate is {:?}",
@@ -275,6 +317,7 @@ pub fn property() -> Property {
         assumptions: vec!["versions in the model-checked stream are letter-free so that known finding KF-1 cannot interfere"],
         streams: vec![
             random_stream("lists", "candidate lists, model winner, permutations and association trees", list_strategy, |t| t.pick(40_000, 600_000), check),
+            random_stream("lists-generated", "candidate lists whose versions come from the C01 token generator (KF-1 region tolerated and counted)", generated_list_strategy, |t| t.pick(30_000, 600_000), check),
             random_stream("arbitrary", "arbitrary patterns and names, self-consistency laws", any_strategy, |t| t.pick(60_000, 1_000_000), check_any),
         ],
         selfcheck: dewey::selfcheck,
